@@ -71,3 +71,23 @@ pub fn feature_strategy(optional: &'static [u64]) -> impl Strategy<Value = u64> 
 pub fn fault_text() -> Option<(String, String)> {
     world::first_fault().map(|f| (f.prop.to_string(), f.msg))
 }
+
+
+/// A buffer that is still shared with the live device must not lie in a stack frame that has
+/// already returned: `marker` is the address of a local variable of the (still live) caller, the
+/// callee frames were below it. Returns a description of the first such buffer.
+pub fn posted_in_dead_stack(marker: usize) -> Option<String> {
+    let lo = marker.saturating_sub(64 << 20);
+    with(|w| {
+        let live = w.dev.driver_ok() && w.dev.q.values().any(|q| q.ready);
+        if !live {
+            return None;
+        }
+        w.hal.live_by_vaddr.range(lo..marker).next().map(|(&va, &i)| {
+            format!(
+                "a buffer in a stack frame that has returned is still posted to the live device: {:#x}+{} (device address {:#x}); the device may write into it later",
+                va, w.hal.regions[i].len, w.hal.regions[i].paddr
+            )
+        })
+    })
+}
